@@ -104,8 +104,12 @@ def run(ctx):
             else:
                 t, m = gen_scenario(rng, sid, big=not ctx.quick or sid % 6 == 0)
             texts.append(t); metas.append(m)
-        rc, out, evs = tp.run_scenario(exe, "".join(texts), d, ctx.seed + sid, "c05_%d" % sid, timeout=240)
+        rc, out, evs = tp.run_scenario(exe, "".join(texts), d, ctx.seed + sid, "c05_%d" % sid, timeout=400)
         hang = [e for e in evs if e["e"] in ("Hang", "BadOp", "Crash")]
+        if (rc != 0 or hang) and not any(e["e"] == "call.shutdown" for e in evs[-60:]):
+            ctx.log("driver run failed (rc=%s %s): one retry" % (rc, hang[:1]))
+            rc, out, evs = tp.run_scenario(exe, "".join(texts), d, ctx.seed + sid, "c05_%d" % sid, timeout=400)
+            hang = [e for e in evs if e["e"] in ("Hang", "BadOp", "Crash")]
         if rc != 0 or hang:
             # a hang in shutdown/teardown belongs to C11; anything else is an infrastructure problem here
             if hang and all(h.get("where") in ("watchdog",) for h in hang) and any(e["e"] == "call.shutdown" for e in evs[-60:]):
